@@ -130,6 +130,14 @@ func c12Case(r *core.Run, idx int, rng *rand.Rand) {
 	case 0:
 		issuerReg = false
 		q.Issuer = "https://unknown-" + randHex(rng, 3) + ".example/metadata"
+		if rng.Intn(3) == 0 {
+			q.Issuer = ""
+		}
+		if rng.Intn(2) == 0 {
+			// nobody (or a stranger) asks, while a registered service provider is named in the subject's qualifiers
+			q.SubjectSPNameQualifier, q.SubjectNameQualifier = d.EntityID, []string{"", d.EntityID}[rng.Intn(2)]
+			r.Count("unregistered_issuer_with_a_registered_entity_named_elsewhere", 1)
+		}
 	}
 	switch rng.Intn(6) {
 	case 0:
